@@ -631,7 +631,7 @@ pub struct ScenB {
 }
 
 /// compile the interposer into the scratch dir; Err = cannot compile
-fn build_shim(root: &str) -> Result<String, String> {
+pub fn build_shim(root: &str) -> Result<String, String> {
 	let src = format!("{}/crashpoint.c", root);
 	let so = format!("{}/crashpoint.so", root);
 	std::fs::write(&src, SHIM_SRC).map_err(|e| e.to_string())?;
